@@ -43,88 +43,166 @@ Proof.
   - destruct (Nat.eqb_spec k j); auto.
 Qed.
 
+(* ---------- freshness of a returned content ---------- *)
+
+Lemma flag_ttlget_guarded : cache_ttlget_negative_fill_guarded = true. Proof. reflexivity. Qed.
+
+Lemma nth_error_Some_lt {T} (l : list T) n x : nth_error l n = Some x -> (n < length l)%nat.
+Proof. intros H. apply nth_error_Some. congruence. Qed.
+
+Definition fresh (hist : list (option N)) (c : N) (e : option N) : Prop :=
+  exists j, (N.to_nat c <= j)%nat /\ nth_error (rev hist) j = Some e.
+
+Lemma on_eqb_eq a b : on_eqb a b = true <-> a = b.
+Proof.
+  unfold on_eqb, option_eqb. destruct a, b; split; intros H; try discriminate; try reflexivity.
+  - apply N.eqb_eq in H. congruence.
+  - inversion H. apply N.eqb_refl.
+Qed.
+
+Lemma fresh_enough_spec hist c e : fresh_enough hist c e = true <-> fresh hist c e.
+Proof.
+  unfold fresh_enough, fresh. rewrite existsb_exists. split.
+  - intros [j [Hin H]]. apply andb_prop in H. destruct H as [H1 H2]. exists j. split; [lia|].
+    destruct (nth_error (rev hist) j) as [x|]; [|discriminate]. apply on_eqb_eq in H2. congruence.
+  - intros [j [H1 H2]]. exists j. split.
+    + apply in_seq. split; [lia|]. apply nth_error_Some_lt in H2. rewrite rev_length in H2. lia.
+    + rewrite H2. apply andb_true_intro. split; [apply N.leb_le; lia|apply on_eqb_eq; reflexivity].
+Qed.
+
+Lemma fresh_cons x hist c e : fresh hist c e -> fresh (x :: hist) c e.
+Proof.
+  intros [j [H1 H2]]. exists j. split; auto. cbn [rev]. rewrite nth_error_app1; auto.
+  apply nth_error_Some_lt in H2. exact H2.
+Qed.
+
+Lemma fresh_le hist c c' e : c' <= c -> fresh hist c e -> fresh hist c' e.
+Proof. intros L [j [H1 H2]]. exists j. split; [lia|exact H2]. Qed.
+
+Lemma fresh_head x hist c : (N.to_nat c <= length hist)%nat -> fresh (x :: hist) c x.
+Proof.
+  intros L. exists (length hist). split; [lia|]. cbn [rev]. rewrite nth_error_app2 by (rewrite rev_length; lia).
+  rewrite rev_length, Nat.sub_diag. reflexivity.
+Qed.
+
 (* ---------- the invariant ---------- *)
 
-Definition reader_ok (s : sch) (starts : list (nat * N)) (i : nat) (r : rpc * nat) : Prop :=
+Definition nodel (w : wop) : Prop := w <> WDel.
+
+Definition reader_ok (s : sch) (starts : list (nat * N)) (i : nat) (r : rpc * list rop) : Prop :=
   match fst r with
   | RIdle => entry_of starts i = None
-  | RMissed => exists c, entry_of starts i = Some (i, c) /\ c <= s_completed s
-  | RGot v => exists c, entry_of starts i = Some (i, c) /\ c <= v
+  | RMissed _ => exists c, entry_of starts i = Some (i, c) /\ c <= s_completed s
+  | RGot _ e => exists c, entry_of starts i = Some (i, c) /\ fresh (s_hist s) c e
   end.
 
 Record Inv (s : sch) (starts : list (nat * N)) : Prop := mkInv {
-  I_store : s_completed s <= s_store s;
-  I_cache : forall n, s_cache s = Some n -> s_completed s <= n;
+  I_hist : exists tl, s_hist s = s_store s :: tl /\ length tl = N.to_nat (s_started s);
+  I_le : s_completed s <= s_started s;
+  I_cache : forall e, s_cache s = Some e -> fresh (s_hist s) (s_completed s) e;
   I_nocache : s_cache s = None -> s_completed s = 0;
-  I_next : s_store s < s_wnext s;
+  I_nodel : Forall nodel (s_wprog s) /\ (forall w, s_wpc s = Some w -> nodel w /\ s_store s = wcontent w);
   I_readers : forall i r, nth_error (s_readers s) i = Some r -> reader_ok s starts i r
 }.
 
-Lemma Inv_init puts readers : Inv (sch_init puts readers) [].
+Lemma Inv_init init prog readers : Forall nodel prog -> Inv (sch_init init prog readers) [].
 Proof.
-  constructor; cbn; try lia; try discriminate; auto.
-  intros i r H. rewrite nth_error_map in H. destruct (nth_error readers i); inversion H; subst. cbn. reflexivity.
+  intros Hp. constructor; cbn; try lia; try discriminate; auto.
+  - exists []. split; reflexivity.
+  - split; [exact Hp|intros w H; discriminate].
+  - intros i r H. rewrite nth_error_map in H. destruct (nth_error readers i); inversion H; subst. cbn. reflexivity.
 Qed.
 
-(* the statement: every schedule the model can run satisfies the oracle *)
-Theorem no_stale_after_complete_proved : forall ps s starts obs,
-  Inv s starts -> sch_run s ps = Some obs -> no_stale starts ps obs = true.
+(* every schedule the model can run satisfies the oracle (the oracle's own bookkeeping of
+   the content history and of the remaining program coincides with the model's) *)
+Theorem no_stale_after_complete_proved : forall ps s starts obs wmid,
+  Inv s starts -> sch_run s ps = Some obs -> no_stale (s_hist s) (s_wprog s) wmid starts ps obs = true.
 Proof.
-  induction ps as [|p ps IH]; intros s starts obs HI Hrun; cbn in Hrun.
+  induction ps as [|p ps IH]; intros s starts obs wmid HI Hrun; cbn in Hrun.
   - inversion Hrun; subst. reflexivity.
   - destruct (sch_step s p) as [[s' o]|] eqn:Es; [|discriminate].
     destruct (sch_run s' ps) as [obs'|] eqn:Er; [|discriminate]. cbn in Hrun. inversion Hrun; subst obs. clear Hrun.
-    destruct HI as [H1 H2 H3 H4 H5].
-    destruct p as [|i]; cbn in Es.
+    destruct HI as [H1 H2 H3 H4 H5 H6]. destruct H1 as (tl & Hh & Hlen). destruct H5 as [H5a H5b].
+    destruct p as [|i]; cbn [sch_step] in Es.
     + (* writer *)
-      destruct (s_wpc s) eqn:Ew.
-      * inversion Es; subst s' o. cbn [no_stale]. eapply IH; [|exact Er].
-        constructor; cbn; try lia.
-        -- intros n E. inversion E; subst. lia.
-        -- discriminate.
-        -- intros j r Hr. specialize (H5 j r Hr). unfold reader_ok in *. cbn [fst s_completed].
-           destruct (fst r); auto. destruct H5 as [c [E L]]. exists c. split; auto. lia.
-      * destruct (s_wleft s) as [|k]; [discriminate|]. inversion Es; subst s' o. cbn [no_stale].
-        eapply IH; [|exact Er]. constructor; cbn; try lia; auto.
+      destruct (s_wpc s) as [w|] eqn:Ew.
+      * (* cache step *)
+        inversion Es; subst s' o. clear Es. cbn [no_stale].
+        destruct (H5b w eq_refl) as [Nw Hst].
+        match type of Er with sch_run ?s' _ = _ => specialize (IH s' starts obs' false) end.
+        cbn [s_hist s_wprog] in IH. apply IH; [|exact Er].
+        assert (Hfr : fresh (s_hist s) (s_started s) (wcontent w)).
+        { rewrite Hh, Hst. apply fresh_head. lia. }
+        constructor; cbn [s_hist s_store s_cache s_wpc s_wprog s_completed s_started s_readers].
+        -- exists tl. split; auto.
+        -- lia.
+        -- intros e E. destruct w; try (exfalso; apply Nw; reflexivity); inversion E; subst; exact Hfr.
+        -- destruct w; try discriminate. exfalso; apply Nw; reflexivity.
+        -- split; [exact H5a|intros w' E; discriminate].
+        -- intros j r Hr. specialize (H6 j r Hr). unfold reader_ok in *. cbn [s_completed s_hist].
+           destruct (fst r); auto. destruct H6 as [c [E L]]. exists c. split; auto. lia.
+      * destruct (s_wprog s) as [|w rest] eqn:Ep; [discriminate|]. inversion Es; subst s' o. clear Es. cbn [no_stale].
+        inversion H5a as [|? ? Nw Hrest]; subst.
+        match type of Er with sch_run ?s' _ = _ => specialize (IH s' starts obs' true) end. cbn [s_hist s_wprog] in IH. apply IH; [|exact Er].
+        constructor; cbn [s_hist s_store s_cache s_wpc s_wprog s_completed s_started s_readers].
+        -- exists (s_hist s). split; auto. rewrite Hh. cbn [length]. lia.
+        -- lia.
+        -- intros e E. apply fresh_cons. apply H3. exact E.
+        -- exact H4.
+        -- split; [exact Hrest|intros w' E; inversion E; subst; auto].
+        -- intros j r Hr. specialize (H6 j r Hr). unfold reader_ok in *. cbn [s_completed s_hist].
+           destruct (fst r); auto. destruct H6 as [c [E L]]. exists c. split; auto. apply fresh_cons. exact L.
     + (* reader i *)
-      destruct (nth_error (s_readers s) i) as [[pc k]|] eqn:En; [|discriminate].
-      pose proof (H5 i _ En) as Hi. unfold reader_ok in Hi. cbn [fst] in Hi.
-      destruct pc as [| |v].
-      * destruct k as [|k]; [discriminate|].
-        destruct (s_cache s) as [cv|] eqn:Ec; inversion Es; subst s' o; cbn [no_stale].
-        -- (* hit *) pose proof (H2 cv eq_refl) as Hcv.
-           destruct (N.leb_spec (s_completed s) cv); [|lia]. cbn [andb].
-           eapply IH; [|exact Er]. constructor; cbn; auto.
-           intros j r Hr. destruct (Nat.eq_dec i j) as [<-|Nij].
+      destruct (nth_error (s_readers s) i) as [[pc rest]|] eqn:En; [|discriminate].
+      pose proof (H6 i _ En) as Hi. unfold reader_ok in Hi. cbn [fst] in Hi.
+      assert (Hframe : forall starts' rs', 
+                 (forall j r, nth_error rs' j = Some r -> reader_ok s starts' j r) ->
+                 Inv (set_readers s rs') starts').
+      { intros starts' rs' Hr. constructor; cbn; auto. exists tl. split; auto. }
+      destruct pc as [|o0|o0 e0].
+      * destruct rest as [|ro rest]; [discriminate|].
+        destruct (s_cache s) as [e|] eqn:Ec; inversion Es; subst s' o. clear Es.
+        -- (* hit *) cbn [no_stale]. rewrite (proj2 (fresh_enough_spec _ _ _) (H3 e eq_refl)). cbn [andb].
+           match type of Er with sch_run ?s' _ = _ => specialize (IH s' starts obs' wmid) end. cbn in IH. apply IH; [|exact Er].
+           apply Hframe. intros j r Hr. destruct (Nat.eq_dec i j) as [<-|Nij].
            ++ rewrite (nth_error_set_nth_same _ _ _ _ En) in Hr. inversion Hr; subst. exact Hi.
-           ++ rewrite nth_error_set_nth_other in Hr by assumption. exact (H5 j r Hr).
-        -- (* miss: the Get starts *)
-           eapply IH; [|exact Er]. constructor; cbn; auto.
-           intros j r Hr. destruct (Nat.eq_dec i j) as [<-|Nij].
-           ++ rewrite (nth_error_set_nth_same _ _ _ _ En) in Hr. inversion Hr; subst. unfold reader_ok. cbn [fst s_completed].
+           ++ rewrite nth_error_set_nth_other in Hr by assumption. exact (H6 j r Hr).
+        -- (* miss *) cbn [no_stale].
+           match type of Er with sch_run ?s' _ = _ => specialize (IH s' ((i, s_completed s) :: starts) obs' wmid) end. cbn in IH. apply IH; [|exact Er].
+           apply Hframe. intros j r Hr. destruct (Nat.eq_dec i j) as [<-|Nij].
+           ++ rewrite (nth_error_set_nth_same _ _ _ _ En) in Hr. inversion Hr; subst. unfold reader_ok. cbn [fst].
               exists (s_completed s). rewrite entry_cons_same. split; [reflexivity|lia].
-           ++ rewrite nth_error_set_nth_other in Hr by assumption. specialize (H5 j r Hr).
-              unfold reader_ok in *. cbn [fst s_completed]. rewrite entry_cons_other by assumption. exact H5.
+           ++ rewrite nth_error_set_nth_other in Hr by assumption. specialize (H6 j r Hr).
+              unfold reader_ok in *. rewrite entry_cons_other by assumption. exact H6.
       * (* storage read *)
-        inversion Es; subst s' o; cbn [no_stale]. eapply IH; [|exact Er]. constructor; cbn; auto.
-        intros j r Hr. destruct (Nat.eq_dec i j) as [<-|Nij].
-        -- rewrite (nth_error_set_nth_same _ _ _ _ En) in Hr. inversion Hr; subst. unfold reader_ok. cbn [fst s_completed].
-           destruct Hi as [c [E L]]. exists c. split; auto. lia.
-        -- rewrite nth_error_set_nth_other in Hr by assumption. exact (H5 j r Hr).
+        inversion Es; subst s' o. clear Es. cbn [no_stale].
+        match type of Er with sch_run ?s' _ = _ => specialize (IH s' starts obs' wmid) end. cbn in IH. apply IH; [|exact Er].
+        apply Hframe. intros j r Hr. destruct (Nat.eq_dec i j) as [<-|Nij].
+        -- rewrite (nth_error_set_nth_same _ _ _ _ En) in Hr. inversion Hr; subst. unfold reader_ok. cbn [fst].
+           destruct Hi as [c [E L]]. exists c. split; auto. rewrite Hh. apply fresh_head. lia.
+        -- rewrite nth_error_set_nth_other in Hr by assumption. exact (H6 j r Hr).
       * (* fill + return *)
-        try rewrite flag_fill_guarded in Es. inversion Es; subst s' o; cbn [no_stale].
+        inversion Es; subst s' o. clear Es. cbn [no_stale].
         destruct Hi as [c [E L]]. fold (entry_of starts i). rewrite E.
-        destruct (N.leb_spec c v); [|lia]. cbn [andb].
-        eapply IH; [|exact Er]. constructor; cbn; auto.
-        -- intros n. destruct (s_cache s) as [cv|] eqn:Ec; intros En'; inversion En'; subst.
-           ++ apply H2. reflexivity.
-           ++ rewrite (H3 eq_refl). lia.
-        -- destruct (s_cache s); [discriminate|]. intros _. apply H3. reflexivity.
+        rewrite (proj2 (fresh_enough_spec _ _ _) L). cbn [andb].
+        match type of Er with sch_run ?s' _ = _ => specialize (IH s' (filter (fun e => negb (Nat.eqb (fst e) i)) starts) obs' wmid) end. cbn [s_hist s_wprog] in IH. apply IH; [|exact Er].
+        assert (Hfill : forall c', reader_fill o0 e0 (s_cache s) = Some c' ->
+                          (s_cache s = Some c') \/ (s_cache s = None /\ c' = e0)).
+        { intros c' Hc. unfold reader_fill in Hc. rewrite flag_fill_guarded, flag_ttlget_guarded in Hc.
+          unfold fill_if_absent in Hc. destruct o0, e0, (s_cache s); inversion Hc; auto. }
+        constructor; cbn [s_hist s_store s_cache s_wpc s_wprog s_completed s_started s_readers].
+        -- exists tl. split; auto.
+        -- exact H2.
+        -- intros e' Hc. destruct (Hfill e' Hc) as [Hc'|[Hc' ->]]; [apply H3; exact Hc'|].
+           rewrite (H4 Hc'). eapply fresh_le; [|exact L]. lia.
+        -- intros Hc. apply H4. unfold reader_fill in Hc. rewrite flag_fill_guarded, flag_ttlget_guarded in Hc.
+           unfold fill_if_absent in Hc. destruct o0, e0, (s_cache s); try discriminate; reflexivity.
+        -- split; auto.
         -- intros j r Hr. destruct (Nat.eq_dec i j) as [<-|Nij].
-           ++ rewrite (nth_error_set_nth_same _ _ _ _ En) in Hr. inversion Hr; subst. unfold reader_ok. cbn [fst s_completed].
+           ++ rewrite (nth_error_set_nth_same _ _ _ _ En) in Hr. inversion Hr; subst. unfold reader_ok. cbn [fst].
               apply entry_filter_same.
-           ++ rewrite nth_error_set_nth_other in Hr by assumption. specialize (H5 j r Hr).
-              unfold reader_ok in *. cbn [fst s_completed]. rewrite entry_filter_other by assumption. exact H5.
+           ++ rewrite nth_error_set_nth_other in Hr by assumption. specialize (H6 j r Hr).
+              unfold reader_ok in *. cbn [s_completed s_hist]. rewrite entry_filter_other by assumption. exact H6.
 Qed.
 
 (* ================= sequential transparency over the reference storage ================= *)
